@@ -394,7 +394,9 @@ StoreData == {<<8, 1>>, <<9, 1>>, <<10, 1>>}
 \* away at least once), refuses a range that starts before the creation time of its oldest fraction
 StoreRefuses(st) == st.mode = "hot" /\ st.mature /\ (st.oct = 0 \/ st.oct > st.from)
 StoreChoices == IF Family = "store"
-                  THEN [mode : {"hot", "cold"}, mature : BOOLEAN, oct : {StoreOCT}, from : {3, 5, 7}]
+                  \* oct = 0: the store was loaded but its maintenance loop has not finished its first pass yet
+                  \* (FracManager.OldestCT is only computed there): a mature hot store then refuses every range
+                  THEN [mode : {"hot", "cold"}, mature : BOOLEAN, oct : {0, StoreOCT}, from : {3, 5, 7}]
                   ELSE {NoStore}
 
 \* ---- seeded random scenarios (family "rand", tlc -simulate)
@@ -484,9 +486,9 @@ AllUpIsComplete ==
 RetentionHonest ==
   (Final /\ sc.store.mode # "fake") =>
     LET st == sc.store
-        older == st.mode = "hot" /\ st.mature /\ st.from < st.oct
+        older == StoreRefuses(st)
     IN /\ older => \A a \in alw : a.kind = "error" \/ a.tier = "cold"
-       /\ (~older /\ st.oct > 0) => \A a \in alw : a.kind = "complete" /\ a.tier = "hot"
+       /\ ~older => \A a \in alw : a.kind = "complete" /\ a.tier = "hot"
 
 \* the signature of the deviation of the pinned lessFuncPosBased (see header)
 FindingSig(s, Q) == s.hint # "" /\ \E h \in OpenSrcs(s, Q) : s.fb[h].k \in {"extra", "reorder"}
